@@ -47,6 +47,39 @@ if TYPE_CHECKING:
     from liquid2 import TokenT
 
 
+_STRING_ESCAPES = {
+    "\\": "\\\\",
+    "'": "\\'",
+    "$": "\\$",
+    "\n": "\\n",
+    "\r": "\\r",
+    "\t": "\\t",
+    "\x08": "\\b",
+    "\x0c": "\\f",
+}
+
+
+def quote_string(value: str) -> str:
+    """Return _value_ as a single-quoted Liquid string literal.
+
+    Unlike `repr()`, the result only uses escape sequences that the Liquid lexer
+    understands, and `$` is always escaped so as not to start an interpolation.
+    """
+    return f"'{_escape_string(value)}'"
+
+
+def _escape_string(value: str) -> str:
+    buf: list[str] = []
+    for ch in value:
+        if ch in _STRING_ESCAPES:
+            buf.append(_STRING_ESCAPES[ch])
+        elif ch < " " or ch == "\x7f":
+            buf.append(f"\\u{ord(ch):04x}")
+        else:
+            buf.append(ch)
+    return "".join(buf)
+
+
 class Null(Expression):
     __slots__ = ()
 
@@ -207,6 +240,9 @@ class StringLiteral(Literal[str]):
 
     def __init__(self, token: TokenT, value: str):
         super().__init__(token, value)
+
+    def __str__(self) -> str:
+        return quote_string(self.value)
 
     def __eq__(self, other: object) -> bool:
         return isinstance(other, StringLiteral) and self.value == other.value
@@ -382,9 +418,11 @@ class TemplateString(Expression):
         return isinstance(other, TemplateString) and self.template == other.template
 
     def __str__(self) -> str:
-        return repr(
+        return "'{}'".format(
             "".join(
-                e.value if isinstance(e, StringLiteral) else f"${{{e}}}"
+                _escape_string(e.value)
+                if isinstance(e, StringLiteral)
+                else f"${{{e}}}"
                 for e in self.template
             )
         )
@@ -518,7 +556,11 @@ class Path(Expression):
 
     def __str__(self) -> str:
         it = iter(self.path)
-        buf = [str(next(it))]
+        root = next(it)
+        if isinstance(root, str) and not RE_PROPERTY.fullmatch(root):
+            buf = [f"[{quote_string(root)}]"]
+        else:
+            buf = [str(root)]
         for segment in it:
             if isinstance(segment, Path):
                 buf.append(f"[{segment}]")
@@ -526,7 +568,7 @@ class Path(Expression):
                 if RE_PROPERTY.fullmatch(segment):
                     buf.append(f".{segment}")
                 else:
-                    buf.append(f"[{segment!r}]")
+                    buf.append(f"[{quote_string(segment)}]")
             else:
                 buf.append(f"[{segment}]")
         return "".join(buf)
